@@ -472,6 +472,14 @@ const POW10_FLOAT: [f64; 23] = [
     1e+022, /* <= the connvertion to double is not exact when larger,  => */
 ];
 
+/// Verification hook: the digit-run parser of the backend selected at compile time.
+/// `c` must hold at least 16 bytes and `need` must be in `1..=16`.
+#[cfg(sonic_rs_verif)]
+pub fn verif_str2int(c: &[u8], need: usize) -> (u64, usize) {
+    assert!(c.len() >= 16 && (1..=16).contains(&need));
+    unsafe { simd_str2int(c, need) }
+}
+
 #[cfg(test)]
 mod test {
     use crate::{parse_number, ParserNumber};
